@@ -51,3 +51,43 @@ def BurstMaster {ω τ : Type} (m : Slave ω τ) (maxWrap : Bool) (ins : List (R
   BurstFrom m maxWrap m.init .free ins
 
 end Litex.WbMem
+
+/-! ### Master wait states inside bursts
+
+  Between two beats of a burst a Wishbone B4 master may also present *no* strobe: a wait state (`stb` low, `cyc`
+  held, anything — held values or garbage — on the other lines) or the abandonment of the burst (`cyc` dropped).
+  `allowsW` adds these cycles to `allows`; afterwards the master is free (`Expect.next` of an inactive cycle is
+  `.free`): it may resume the burst, start another one (other `we`, other address) or stay idle. -/
+
+namespace Litex.WbMem
+open Litex
+
+/-- The master is between two beats of an incrementing burst (the last cycle was an acknowledged `cti = 2` beat). -/
+def Expect.isCont : Expect → Bool
+  | .cont .. => true
+  | _ => false
+
+def Expect.allowsW (maxWrap : Bool) (e : Expect) (i : Req) : Prop :=
+  e.allows maxWrap i ∨ (e.isCont = true ∧ i.active = false)
+
+/-- The master follows the burst protocol, wait states and abandoned bursts included, through the whole run. -/
+def BurstFromW {ω τ : Type} (m : Slave ω τ) (maxWrap : Bool) (s : τ) (e : Expect) : List (Req × ω) → Prop
+  | [] => True
+  | i :: is => e.allowsW maxWrap i.1 ∧ BurstFromW m maxWrap (m.next s i) (e.next i.1 (m.out s i).ack) is
+
+def BurstMasterW {ω τ : Type} (m : Slave ω τ) (maxWrap : Bool) (ins : List (Req × ω)) : Prop :=
+  BurstFromW m maxWrap m.init .free ins
+
+/-- Acknowledges are given to a presented strobe — or, without a strobe, only in the cycle that follows an
+    acknowledged incrementing-burst beat (`pre`): a registered-feedback slave that was told by `cti = 2` that
+    another beat follows has its acknowledge up already; a master that inserts a wait state there presents no
+    strobe, so that acknowledge completes no bus cycle (it is not in `ops`). -/
+def AckStrobedOrPreFrom {ω τ : Type} (m : Slave ω τ) (s : τ) (pre : Bool) : List (Req × ω) → Prop
+  | [] => True
+  | i :: is => ((m.out s i).ack = true → i.1.active = true ∨ pre = true) ∧
+      AckStrobedOrPreFrom m (m.next s i) (i.1.active && (m.out s i).ack && i.1.cti == 2) is
+
+def AckStrobedOrPre {ω τ : Type} (m : Slave ω τ) (ins : List (Req × ω)) : Prop :=
+  AckStrobedOrPreFrom m m.init false ins
+
+end Litex.WbMem
